@@ -122,6 +122,10 @@ class DefGen:
             sub_used, sub_tags = set(), set()
             nf = r.choice([1, 2, 3, 4])
             f["fields"] = [self.gen_field(a, top, flex_lo, sub_used, sub_tags, depth + 1, structs) for _ in range(nf)]
+            # every structure has at least one field in every version it is visible in (an array element
+            # of encoded size 0 cannot be delimited): an anchor field covering the whole range
+            anchor = {"versions": vs, "name": self.field_name(sub_used), "type": r.choice(["int8", "int32", "string", "bool"])}
+            f["fields"].insert(r.randrange(len(f["fields"]) + 1), anchor)
             if r.random() < 0.3:
                 nvs, (na, nb) = self.vrange(a, top)
                 f["nullableVersions"] = nvs
@@ -141,12 +145,22 @@ class DefGen:
             if kind == "struct" and "default" in f:
                 del f["default"]
             t = f.get("type")
-            needs_default = t in ("bool",) or f["name"] in ("ErrorCode", "PartitionErrorCode")
+            # tagged bool / error-code / uuid fields have no implicit default in kio: the supported subset
+            # requires an explicit default or `ignorable` (uuid: ignorable, its default is None)
+            needs_default = t in ("bool", "uuid") or f["name"] in ("ErrorCode", "PartitionErrorCode")
             if "default" not in f:
                 if r.random() < 0.6 or needs_default or kind in ("struct",):
                     f["ignorable"] = True            # tagged ignorable without default (bool → finding G)
             if kind == "prim" and f.get("default") == "null":
                 f["nullableVersions"] = f"{ta}+"
+            # a tagged nullable field needs None as its (explicit) default
+            if kind == "prim" and "nullableVersions" in f and "default" not in f and not f.get("ignorable"):
+                if r.random() < 0.5:
+                    f["default"] = "null"
+                else:
+                    f["ignorable"] = True
+            if kind == "prim" and "nullableVersions" in f and f.get("default") not in (None, "null"):
+                del f["nullableVersions"]
         if r.random() < 0.1:
             f["about"] = "generated field"
         return f
